@@ -26,7 +26,7 @@ PROPERTY = "C02"
 LEVEL = "exploration"
 RULE = ("fft sizes 2..128 (thorough ..1024, odd and non powers of two "
         "included), cp 0..fft (0, fft, memory forced as classes), even used "
-        "counts 2..fft or None, input lengths 1..4*used+3 (five input kinds); "
+        "counts 2..fft or None, input lengths 1..4*used+3 (six input kinds incl. an integer-dtype ramp); "
         "channels of 1..6 taps at distinct integer sample delays with memory "
         "<= cp (memory == cp forced in ~1/3, memory == fft when cp == fft), "
         "powers -30..0 dB, static Jakes realisation (Fd = 0, L 1..16, seeded), "
@@ -68,7 +68,8 @@ ASSUMPTIONS = [
 QUICK_BUDGET_S = 240
 THOROUGH_BUDGET_S = 1500
 
-_XKINDS = ["gauss", "gauss", "qpsk", "sparse", "ones", "ramp"]
+_XKINDS = ["gauss", "gauss", "qpsk", "sparse", "ones", "ramp", "gauss",
+           "int_ramp"]
 
 
 # ----------------------------------------------------------------------------
@@ -255,9 +256,9 @@ def _invalid_cases(tier):
 
 
 PARTS = [
-    Part("ofdm", _ofdm_case, quick=1500, thorough=60000, quick_shards=4),
-    Part("chan", _chan_case, quick=2500, thorough=100000, quick_shards=8),
-    Part("negctl", _negctl_case, quick=200, thorough=4000, quick_shards=2),
+    Part("ofdm", _ofdm_case, quick=1500, thorough=40000, quick_shards=4),
+    Part("chan", _chan_case, quick=2500, thorough=70000, quick_shards=8),
+    Part("negctl", _negctl_case, quick=200, thorough=3000, quick_shards=2),
     Part("invalid", enumerate=_invalid_cases, exhaustive=True,
          quick_shards=1, thorough_shards=1),
 ]
@@ -283,6 +284,9 @@ def _make_x(case):
             x[rs.randint(0, n)] += 1j
     elif kind == "ones":
         x = np.ones(n, dtype=complex)
+    elif kind == "int_ramp":
+        # real integer dtype, as in the library's own test_modulate
+        return np.arange(1, n + 1)
     else:   # ramp, like the library's own tests
         x = np.arange(1, n + 1) * (1.0 + 1.0j)
     return float(case["amp"]) * x
@@ -439,7 +443,10 @@ def _transmit_and_equalize(case, ctx, o, used_eff, ch, x, tx, n_sym, tags,
     Hu = np.abs(H[_my_used_bins(fft, used_eff)])
     cond = float(np.max(Hu) / np.min(Hu)) if np.min(Hu) > 0 else math.inf
     demod = o.demodulate(y[:tx.size])
-    eq = np.asarray(OfdmOneTapEqualizer(o).equalize_data(demod, ir))
+    with np.errstate(divide="ignore", invalid="ignore"):
+        # (a zero reported response - known finding - divides by zero; the
+        # resulting inf/nan is judged below, the numpy warning is noise)
+        eq = np.asarray(OfdmOneTapEqualizer(o).equalize_data(demod, ir))
     if eq.shape != (n_sym * used_eff,):
         raise Violation("equalized_length", "equalize_data returned shape %r, "
                         "expected (%d,)" % (eq.shape, n_sym * used_eff), tags)
